@@ -125,9 +125,30 @@ def run_config(res, n, d, fc, sc, ks, queries, stats):
     i = 0
     unsorted_call = {}
     call_form = {}
+    # every third channel is recorded back to front in two halves: the later half first, then the monitor opened at the
+    # start asks for the bounds and the latest sample, then the EARLIER half is back-filled (into earlier files and
+    # subdirectories).  Where a sample is looked for does not depend on what the reader was asked before.
+    sorted_ks = ks
+    poll_at = None
+    if len(ks) >= 4 and rng.random() < 0.34:
+        h = len(ks) // 2
+        ks = ks[h:] + ks[:h]
+        poll_at = len(ks) - h
+        res.count("channel-back-filled-after-a-poll")
     while i < len(ks):
+        if poll_at is not None and i >= poll_at:
+            poll_at = None
+            if rd_early is not None:
+                try:
+                    rd_early.get_bounds()
+                    rd_early.read_latest()
+                    rd_early.read(ks[0], method="ffill")
+                except Exception:  # noqa
+                    pass
         m = rng.choice([1, 1, 2, 3, 5])
         chunk = ks[i:i + m]
+        if poll_at is not None and i < poll_at < i + m:
+            chunk = ks[i:poll_at]
         vals = list(range(i, i + len(chunk)))
         if len(chunk) >= 3 and rng.random() < 0.35:
             # the indices of one call in another order than ascending: two neighbours first and last, the rest between
@@ -169,6 +190,7 @@ def run_config(res, n, d, fc, sc, ks, queries, stats):
                            "arg_types": arg_types, "prefix": PREFIX}, "accepted", repr(e)[:200])
             return sorted(walk_samples(top)[1])
         i += len(chunk)
+    ks = sorted_ks
     where, files = walk_samples(top)
     fileset = set(files)
     rd = digital_rf.DigitalMetadataReader(common.path_form(top))
@@ -254,6 +276,23 @@ def run_config(res, n, d, fc, sc, ks, queries, stats):
             if keys2 != [k]:
                 res.violation("early-reader-misses-sample", "a reader opened while the channel was still empty does not find the "
                               "written sample k (it looks in %r)" % (fl2,), dict(inp, reader="opened before the first write"), [k], keys2)
+            try:
+                keys3 = [int(x) for x in rd_early.read(k, k, method="ffill").keys()]
+            except Exception as e:  # noqa
+                keys3 = repr(e)[:120]
+            if keys3 != [k]:
+                res.violation("early-reader-misses-sample", "a reader opened while the channel was still empty (and polled before "
+                              "earlier samples were back-filled) does not find the written sample k by a forward-fill read",
+                              dict(inp, reader="opened before the first write", method="ffill"), [k], keys3)
+    if rd_early is not None and ks:
+        try:
+            b_e = tuple(int(x) for x in rd_early.get_bounds())
+        except Exception as e:  # noqa
+            b_e = repr(e)[:120]
+        if b_e != (min(ks), max(ks)):
+            res.violation("early-reader-bounds-wrong", "a reader opened while the channel was still empty reports other bounds than "
+                          "the first and last written index", dict(cfgi, k=min(ks), others=sorted(ks)[:6], reader="opened before the first write"),
+                          [min(ks), max(ks)], b_e)
     # ---- range queries
     sks = sorted(ks)
     for qi, (a, b) in enumerate(queries):
